@@ -1,9 +1,10 @@
 """C02 — energy ledger: recorded rates, EV energy and battery charge agree."""
 import random
+import warnings
 
 import numpy as np
 
-from vlib import gen, simrun
+from vlib import build, gen, simrun
 from vlib.monitors import Wrap, battery_state, ev_battery, ev_battery_json, json_charge
 
 ID = "C02"
@@ -29,7 +30,7 @@ ANCHORS = [
     "acnportal.acnsim.analysis:aggregate_current",
     "acnportal.acnsim.analysis:total_energy_delivered",
 ]
-REQUIRED = ["runs_judged", "sessions_reconciled", "charge_calls_logged", "vacant_cells_checked", "vacant_station_pilots",
+REQUIRED = ["stochastic_runs_judged", "stochastic_runs_with_early_departure", "stochastic_cells_checked", "runs_judged", "sessions_reconciled", "charge_calls_logged", "vacant_cells_checked", "vacant_station_pilots",
             "battery_json_dumps", "regime:heterogeneous-voltage", "regime:noise-battery", "regime:two-stage", "regime:ideal"]
 BUDGET_S = {"quick": 240, "thorough": 3000}
 
@@ -46,7 +47,9 @@ def _after(ctx, rate, exc):
     if log is None or exc is not None:
         return
     ev, p, v, T = ctx
-    log.append((ev.session_id, ev.station_id, float(p), float(v), float(T), float(rate), ev.energy_delivered))
+    sim = LOG.get("sim")
+    log.append((ev.session_id, ev.station_id, float(p), float(v), float(T), float(rate), ev.energy_delivered,
+                sim.iteration if sim is not None else None))
 
 
 def worker_init():
@@ -67,11 +70,90 @@ def cases(seed, tier):
         else:
             d = gen.scenario(rng, sched="sorted", kinds=("EVSE", "FR"), noise_p=0.3)
         out.append({"desc": d})
+    from props.c19 import gen_history
+    for i in range(n // 5):
+        out.append({"desc": gen_history(rng), "stochastic": True, "rseed": rng.randrange(1 << 30)})
     return out
+
+
+def _run_stochastic(case, obs):
+    """The ledger on a StochasticNetwork: stations are assigned at run time and EVs may be swapped in the end-of-period hook,
+    so the ledger is kept per charge call: (period, station, session, returned rate) as logged at EV.charge."""
+    import random as _r
+    from acnportal import acnsim
+    from acnportal.contrib.acnsim.network.stochastic_network import StochasticNetwork
+    d = case["desc"]
+    _r.seed(case["rseed"])
+    sim, evs = build.build_sim(d, net_cls=StochasticNetwork, net_kw={"early_departure": d["early"]})
+    LOG["cur"] = log = []
+    LOG["sim"] = sim
+    try:
+        with warnings.catch_warnings():
+            warnings.simplefilter("ignore")
+            sim.run()
+    except Exception as e:
+        obs.violate("run_raised", f"{type(e).__name__}: {e}", scenario=d)
+        return
+    finally:
+        LOG["cur"] = None
+        LOG["sim"] = None
+    wit = dict(scenario=d, rseed=case["rseed"])
+    obs.ev("stochastic_runs_judged")
+    obs.ev("charge_calls_logged", len(log))
+    ids = list(sim.network.station_ids)
+    row = {st: i for i, st in enumerate(ids)}
+    volt = {s["id"]: s["voltage"] for s in d["network"]["stations"]}
+    per = d["period"]
+    cr = sim.charging_rates
+    T = sim.iteration
+    tol = lambda x: 1e-9 * max(1.0, abs(x))
+    cells = {}
+    energy = {}
+    for sid, st, p, v, Tm, rate, e_after, t in log:
+        if (st, t) in cells:
+            obs.violate("two_charge_calls_one_cell", f"station {st} period {t}: charged twice", **wit)
+            return
+        cells[(st, t)] = rate
+        energy[sid] = energy.get(sid, 0.0) + rate * volt[st] / 1000.0 * per / 60.0
+        if v != volt[st] or Tm != per:
+            obs.violate("charge_call_voltage_or_period", f"period {t} station {st}: V={v}, T={Tm}", **wit)
+            return
+    for i, st in enumerate(ids):
+        for t in range(T):
+            want = cells.get((st, t), 0.0)
+            obs.ev("stochastic_cells_checked")
+            if not abs(cr[i, t] - want) <= tol(want):
+                obs.violate("recorded_rate_vs_charge_call", f"station {st} period {t}: recorded rate {cr[i, t]!r}, "
+                            f"{'EV.charge returned ' + repr(want) if (st, t) in cells else 'no EV was charged there'}", **wit)
+                return
+    for sid, ev in sim.ev_history.items():
+        e = energy.get(sid, 0.0)
+        obs.ev("sessions_reconciled")
+        if not abs(ev.energy_delivered - e) <= tol(e):
+            obs.violate("energy_vs_recorded_rates", f"session {sid}: energy_delivered {ev.energy_delivered!r}, sum over its charge calls {e!r}", **wit)
+        b = ev_battery(ev)
+        c_now = battery_state(b)[0] if b is not None else None
+        init = next(s_["battery"]["init"] for s_ in d["sessions"] if s_["id"] == sid)
+        if c_now is not None and not abs((c_now - init) - ev.energy_delivered) <= tol(e) + 1e-12:
+            obs.violate("energy_vs_battery_charge", f"session {sid}: battery gained {c_now - init!r}, energy_delivered {ev.energy_delivered!r}", **wit)
+    agg = [float(sum(cr[i, t] for i in range(len(ids)))) for t in range(T)]
+    if not abs(sim.peak - max([0.0] + agg)) <= tol(sim.peak):
+        obs.violate("peak", f"peak {sim.peak!r}, max aggregate recorded current {max([0.0] + agg)!r}", **wit)
+    tot = acnsim.total_energy_delivered(sim)
+    integ = sum(sum(cr[i, t] * volt[st] for i, st in enumerate(ids)) / 1000.0 for t in range(cr.shape[1])) * per / 60.0
+    if not abs(tot - integ) <= tol(integ):
+        obs.violate("total_energy_vs_power_integral", f"total_energy_delivered {tot!r}, integral of recorded aggregate power {integ!r}", **wit)
+    if sim.network.early_unplug:
+        obs.ev("stochastic_runs_with_early_departure")
+        obs.nontrivial()
+    obs.sample = {"kind": "stochastic", "stations": len(ids), "sessions": len(d["sessions"]), "early_unplug": sim.network.early_unplug,
+                  "swaps": sim.network.swaps, "charge_calls": len(log), "total_energy": tot}
 
 
 def run_case(case, obs):
     from acnportal import acnsim
+    if case.get("stochastic"):
+        return _run_stochastic(case, obs)
     d = case["desc"]
     LOG["cur"] = log = []
     try:
@@ -109,7 +191,7 @@ def run_case(case, obs):
                 if idx >= len(log):
                     obs.violate("missing_charge_call", f"period {t} station {st}: connected EV was not charged", **wit)
                     return
-                sid, st_l, p, v, Tm, rate, e_after = log[idx]
+                sid, st_l, p, v, Tm, rate, e_after, _t = log[idx]
                 idx += 1
                 if sid != occ[st] or st_l != st:
                     obs.violate("charge_call_order", f"period {t}: charge call for {sid}@{st_l}, expected {occ[st]}@{st}", **wit)
